@@ -142,15 +142,44 @@ def explain(corr):
             "(the model, not the property, is out of date)" % k)
 
 
+FULL_RUNS = {}
+
+
+def load_full_runs(ctx):
+    """implementation results of the all-flags (1111) run of every matrix, keyed by (ring, matrix tokens)"""
+    FULL_RUNS.clear()
+    out = os.path.join(ctx.work, "corr")
+    try:
+        cases = open(os.path.join(out, "cases.txt")).read().splitlines()
+        impl = open(os.path.join(out, "impl.txt")).read().splitlines()
+    except OSError:
+        return
+    for c, a in zip(cases, impl):
+        t = c.split(" ", 3)
+        if t[0] == "snf" and len(t) >= 3 and t[2] == "1111":
+            FULL_RUNS[(t[1], t[3] if len(t) > 3 else "")] = a.split(" | ")
+
+
 def harmless(case, impl, model):
     """an `snf` case whose diagonal form, rank and factors equal the model's (the diagonal is unique: C09_unique) and
-    which only differs in the transformation matrices: the clauses about P, Pinv, Q, Qinv are decided on the
-    implementation's own output by the `chk` case of the same matrix (a false clause there is reported as a failing
-    input), so this difference alone is not a failing input"""
+    which only differs in the transformation matrices.  With all four flags on, the clauses about P, Pinv, Q, Qinv are
+    decided on the implementation's own output by the `chk` case of the same matrix (a false clause there is reported as
+    a failing input), so the difference alone is not a failing input.  With a proper subset of the flags the returned
+    matrices cannot all be validated on their own (a lone Pinv has nothing to be multiplied with): there every
+    returned transform must be the one the implementation returns for the same matrix with all flags on - otherwise
+    a requested transform is wrong and the case is a failing input."""
     if not case.startswith("snf ") or impl in BAD or impl == "P" or model == "P":
         return False
     a, b = impl.split(" | "), model.split(" | ")
-    return len(a) == 7 and len(b) == 7 and a[0] == b[0] and a[5:] == b[5:]
+    if not (len(a) == 7 and len(b) == 7 and a[0] == b[0] and a[5:] == b[5:]):
+        return False
+    t = case.split(" ", 3)
+    if t[2] == "1111":
+        return True
+    full = FULL_RUNS.get((t[1], t[3] if len(t) > 3 else ""))
+    if full is None or len(full) != 7:
+        return False
+    return all(a[k] == "-" or a[k] == full[k] for k in (1, 2, 3, 4))
 
 
 def run(ctx):
@@ -162,6 +191,7 @@ def run(ctx):
     corr = C.correspondence(ctx, "c09", nontrivial)
     viol, stats = scan(ctx)
     extra["c09_stats"] = stats
+    load_full_runs(ctx)
     prioritise(corr)
     return C.finish(ctx, "proof", obl, corr, RULE, extra_cov=extra, assumptions=ASSUME, extra_violations=viol,
                     explain=explain(corr), harmless=harmless)
